@@ -28,8 +28,11 @@ typedef DataNS::AnalogsNS::Channel Channel;
 typedef ParametersNS::GroupNS::Parameter Parameter;
 typedef ParametersNS::GroupNS::Group Group;
 
-static std::string g_dir = ".";
+static thread_local std::string g_dir = ".";      // per thread: concurrent replays use their own directories
+static std::string g_dir_main = ".";
 static bool g_nopost = false;
+static int g_nthreads = 4, g_rounds = 50;
+static unsigned g_seed = 1;
 
 // most-derived first, as binding/ezc3d.i does
 static std::string classify() {
@@ -375,6 +378,31 @@ static int modeRun() {
     return 0;
 }
 
+// Call-granularity scheduler (C18): in "sched" mode a thread may execute its next call only when the global order says so.
+#include <thread>
+#include <mutex>
+#include <condition_variable>
+#include <atomic>
+struct Sched {
+    std::mutex m; std::condition_variable cv;
+    std::vector<int> order; size_t pos; bool on;
+    Sched() : pos(0), on(false) {}
+    void before(int tid) {
+        if (!on) return;
+        std::unique_lock<std::mutex> lk(m);
+        cv.wait(lk, [&] { return pos >= order.size() || order[pos] == tid; });
+    }
+    void after(int tid) {
+        if (!on) return;
+        { std::lock_guard<std::mutex> lk(m); if (pos < order.size() && order[pos] == tid) ++pos; }
+        cv.notify_all();
+    }
+};
+static Sched g_sched;
+static thread_local int t_tid = 0;
+static std::mutex g_outm;
+static void emitLine(const std::string &s) { std::lock_guard<std::mutex> lk(g_outm); ssize_t wr = write(1, s.data(), s.size()); (void)wr; }
+
 // one replay case; returns true when the real object followed the specification
 static bool replayCase(const J &c, long long caseNo, long long &steps) {
     World w;
@@ -383,13 +411,13 @@ static bool replayCase(const J &c, long long caseNo, long long &steps) {
     const J &path = c.at("path");
     for (size_t i = 0; i < path.a.size(); ++i) {
         J ev = J::obj();
-        execOp(w, path.a[i], ev); ++steps;
+        g_sched.before(t_tid); execOp(w, path.a[i], ev); g_sched.after(t_tid); ++steps;
     }
     const J &op = c.at("op");
     long long o = op.geti("o", 1);
     J pre = w.objs.count(o) ? verif::abs(*w.objs[o]) : J::obj();
     J ev = J::obj();
-    execOp(w, op, ev); ++steps;
+    g_sched.before(t_tid); execOp(w, op, ev); g_sched.after(t_tid); ++steps;
     J post = w.objs.count(o) ? verif::abs(*w.objs[o]) : J::obj();
     const std::string out = ev.at("out").s;
     if (c.has("out") && out != c.at("out").s)
@@ -438,9 +466,9 @@ static bool replayCase(const J &c, long long caseNo, long long &steps) {
     if (diffs.empty()) return true;
     J r = J::obj().set("id", c.geti("id", caseNo)).set("fail", J(1)).set("actout", J(out)).set("len", J(path.a.size() + 1));
     J da = J::arr(); for (size_t i = 0; i < diffs.size(); ++i) da.push(diffs[i]);
-    r.set("diffs", da).set("path", path).set("op", op);
+    r.set("diffs", da).set("path", path).set("op", op).set("tid", J(t_tid));
     std::string s; r.dump(s); s += '\n';
-    ssize_t wr = write(1, s.data(), s.size()); (void)wr;
+    emitLine(s);
     return false;
 }
 
@@ -490,15 +518,73 @@ static int modeReplay() {
     return 0;
 }
 
+// C18: the same replay cases, but several at a time in one process, each on its own objects and directory.
+//  free rounds : g_nthreads threads start together, each replays a different case (seeded choice), no synchronisation
+//  sched lines : {"cases":[i,j,..],"order":[tid,...]} - the calls of the listed cases are executed in exactly that order
+static int modeThreads() {
+    std::vector<J> cases; std::vector<J> scheds;
+    std::string line;
+    while (std::getline(std::cin, line)) {
+        if (line.size() > 1 && line[0] == '"' && line[1] == '{') line = jparse(line).s;
+        if (line.empty() || line[0] != '{') continue;
+        J c = jparse(line);
+        if (c.has("order")) scheds.push_back(c); else cases.push_back(c);
+    }
+    if (cases.empty()) { std::cerr << "harness: no cases" << std::endl; return 3; }
+    long long runs = 0, fails = 0;
+    std::atomic<long long> nfail(0);
+    unsigned rng = g_seed * 2654435761u + 12345u;
+    auto next = [&rng]() { rng = rng * 1664525u + 1013904223u; return rng >> 8; };
+    auto runSet = [&](const std::vector<size_t> &pick, bool sched) {
+        std::vector<std::thread> th;
+        std::atomic<int> ready(0); std::atomic<bool> go(false);
+        for (size_t t = 0; t < pick.size(); ++t) {
+            th.push_back(std::thread([&, t]() {
+                t_tid = static_cast<int>(t) + 1;
+                g_dir = g_dir_main + "/t" + std::to_string(t + 1); mkdir(g_dir.c_str(), 0777);
+                ++ready; while (!go.load()) std::this_thread::yield();
+                long long steps = 0;
+                bool ok = replayCase(cases[pick[t]], static_cast<long long>(pick[t]), steps);
+                if (!ok) ++nfail;
+            }));
+        }
+        while (ready.load() < static_cast<int>(pick.size())) std::this_thread::yield();
+        g_sched.on = sched; go.store(true);
+        for (size_t t = 0; t < th.size(); ++t) th[t].join();
+        g_sched.on = false;
+        runs += static_cast<long long>(pick.size());
+    };
+    for (size_t k = 0; k < scheds.size(); ++k) {
+        std::vector<size_t> pick;
+        for (size_t i = 0; i < scheds[k].at("cases").a.size(); ++i) pick.push_back(static_cast<size_t>(scheds[k].at("cases").a[i].i) % cases.size());
+        g_sched.order.clear(); g_sched.pos = 0;
+        for (size_t i = 0; i < scheds[k].at("order").a.size(); ++i) g_sched.order.push_back(static_cast<int>(scheds[k].at("order").a[i].i));
+        runSet(pick, true);
+    }
+    for (int r = 0; r < g_rounds; ++r) {
+        std::vector<size_t> pick;
+        for (int t = 0; t < g_nthreads; ++t) pick.push_back(next() % cases.size());
+        runSet(pick, false);
+    }
+    fails = nfail.load();
+    J r = J::obj().set("summary", J(1)).set("cases", J(runs)).set("fail", J(fails)).set("scheduled", J(scheds.size())).set("free_rounds", J(g_rounds)).set("threads", J(g_nthreads));
+    std::string s; r.dump(s); s += '\n'; emitLine(s);
+    return 0;
+}
+
 int main(int argc, char **argv) {
     std::string mode = argc > 1 ? argv[1] : "run";
     for (int i = 2; i < argc; ++i) {
-        if (!strcmp(argv[i], "--dir") && i + 1 < argc) { g_dir = argv[++i]; mkdir(g_dir.c_str(), 0777); }
+        if (!strcmp(argv[i], "--dir") && i + 1 < argc) { g_dir = argv[++i]; g_dir_main = g_dir; mkdir(g_dir.c_str(), 0777); }
+        else if (!strcmp(argv[i], "--threads") && i + 1 < argc) g_nthreads = atoi(argv[++i]);
+        else if (!strcmp(argv[i], "--rounds") && i + 1 < argc) g_rounds = atoi(argv[++i]);
+        else if (!strcmp(argv[i], "--seed") && i + 1 < argc) g_seed = static_cast<unsigned>(atoll(argv[++i]));
         else if (!strcmp(argv[i], "--nopost")) g_nopost = true;
     }
     std::ios::sync_with_stdio(false);
     if (mode == "run") return modeRun();
     if (mode == "replay") return modeReplay();
+    if (mode == "threads") return modeThreads();
     std::cerr << "usage: ezdrive run|replay [--dir D]" << std::endl;
     return 2;
 }
